@@ -1,0 +1,38 @@
+//go:build verif
+// +build verif
+
+package loader
+
+import "sync"
+
+// Verification hook (build tag `verif` only): counts how many times the content of each path is
+// requested from a file based loader.
+
+var (
+	verifReadsLock sync.Mutex
+	verifReads     = map[string]int{}
+)
+
+func countRead(path string) {
+	verifReadsLock.Lock()
+	verifReads[path]++
+	verifReadsLock.Unlock()
+}
+
+// VerifReads returns a copy of the per-path count of GetContent calls since the last reset.
+func VerifReads() map[string]int {
+	verifReadsLock.Lock()
+	defer verifReadsLock.Unlock()
+	m := make(map[string]int, len(verifReads))
+	for k, v := range verifReads {
+		m[k] = v
+	}
+	return m
+}
+
+// VerifResetReads clears the per-path counters.
+func VerifResetReads() {
+	verifReadsLock.Lock()
+	verifReads = map[string]int{}
+	verifReadsLock.Unlock()
+}
